@@ -29,6 +29,57 @@ func genC09(tier string, r *rng, emit func(string)) {
 			}
 		}
 	}
+	// systematic contraction sweep: every pair of shapes of rank 1..3 over extents {1,2,3} and every
+	// pair of single axes of equal extent, the outer product (no axes) and two-axis contractions of
+	// rank-3 operands; quick keeps a deterministic 1-in-9 sample
+	{
+		var shapes [][]int
+		var rec func(pre []int, rank int)
+		rec = func(pre []int, rank int) {
+			if len(pre) == rank {
+				shapes = append(shapes, append([]int{}, pre...))
+				return
+			}
+			for d := 1; d <= 3; d++ {
+				rec(append(pre, d), rank)
+			}
+		}
+		for rank := 1; rank <= 3; rank++ {
+			rec(nil, rank)
+		}
+		cnt := 0
+		one := func(sa, sb []int, aa, ab string) {
+			cnt++
+			if !thorough && cnt%9 != 0 {
+				return
+			}
+			emit(fmt.Sprintf("prog f64 new:rm:%s:1;new:rm:%s:2;tmul:0:1:%s:%s", fints(sa), fints(sb), aa, ab))
+		}
+		for _, sa := range shapes {
+			for _, sb := range shapes {
+				if prod(sa)*prod(sb) > 144 {
+					continue
+				}
+				for i, x := range sa {
+					for j, y := range sb {
+						if x == y {
+							one(sa, sb, fmt.Sprint(i), fmt.Sprint(j))
+						}
+					}
+				}
+				if len(sa) == 3 && len(sb) == 3 {
+					for i := 0; i < 3; i++ {
+						for j := 0; j < 3; j++ {
+							i2, j2 := (i+1)%3, (j+2)%3
+							if sa[i] == sb[j] && sa[i2] == sb[j2] {
+								one(sa, sb, fmt.Sprintf("%d,%d", i, i2), fmt.Sprintf("%d,%d", j, j2))
+							}
+						}
+					}
+				}
+			}
+		}
+	}
 	// the dispatching Dot (matrix.vector, vector.matrix, matrix.matrix) and products given BOTH a reuse
 	// and an incr tensor, on contiguous and lazily transposed operands
 	for _, dt := range []string{"f64", "f32"} {
